@@ -13,6 +13,19 @@ func init() { registry["C14"] = checkC14 }
 
 // secret classification of a value (a source of taint), or "".
 func secretSource(v ssa.Value) string {
+	// a whole secret-bearing object handed to a formatter (fmt's %v prints every field)
+	if mi, ok := v.(*ssa.MakeInterface); ok {
+		switch typeID(mi.X.Type()) {
+		case idAuthState:
+			return "login state object (contains the PKCE verifier)"
+		case idTokenResponse:
+			return "token object (ID, access and refresh token)"
+		case pkgAuthz + ".idpTokensResponse":
+			return "IdP answer object (all issued tokens)"
+		case idOIDCConfig:
+			return "configuration object (contains the client secret)"
+		}
+	}
 	v = stripConv(v)
 	if call, _, ok := asCall(v); ok {
 		ce := calleeOf(call)
